@@ -83,9 +83,13 @@ class Prim(Term):
 class Part(Term):
     """ctype in {'map','list','mol'}"""
 
-    FIELDS = ("ctype", "key", "index", "value", "label")
+    FIELDS = ("ctype", "key", "index", "value", "label", "generic")
 
-    def __init__(self, ctype, key=None, index=None, value=None, label=None):
+    def __init__(self, ctype, key=None, index=None, value=None, label=None, generic=False):
+        # generic=True (map-or-list parts only): the key condition is given in the generic
+        # `condition` slot instead of the `key` slot; it then applies to lists as well, where a
+        # key-like condition cannot be evaluated, so the part matches nothing there
+        self.generic = generic
         self.ctype = ctype
         self.key = key if key is not None else Null()
         self.index = index if index is not None else Null()
